@@ -18,7 +18,7 @@ META = {
             "of length <=2 (quick) / <=3 (thorough) over {1,11,16,255,4096,35000} in two content classes, a "
             "200-message sequence cycling through 25 boundary lengths up to 70000; for short streams "
             "byte-wise reads, every 2-fragment split point (thorough: every 3-fragment split for 16 class "
-            "representatives) and every position of <=1 (quick) / <=2 (thorough) injected socket.timeout; key switches between every ordered pair of 12 framing x "
+            "representatives) and every position of <=1 (quick) / <=2 (thorough) injected socket.timeout; key switches between every ordered pair of 16 framing x "
             "compression classes at every position of a 4-message sequence (also two switches, strict-kex "
             "sequence reset on/off). Oracle: messages read == messages sent, reader never raises or stalls.",
     "note": "sender and receiver are both paramiko (symmetric bugs are C03/C04's job); payloads <= 70000 bytes; "
@@ -31,7 +31,7 @@ L_ALL = tuple(range(1, 19)) + (255, 256, 4095, 4096, 32768, 35000, 70000)
 PTYPES = (94, 2, 80, 98, 255, 100, 3)
 FRAG_SEQS = ((5, 40, 17), (1,), (16, 1, 33))
 SWITCH_LENGTHS = (9, 40, 300, 17)
-# one representative per framing class (DESIGN 4/C01), crossed with compression off/on
+# one representative per framing class (DESIGN 4/C01) plus 3des+etm and a second GCM, crossed with compression off/on
 CLASS_REPS = (
     ("aes128-ctr", "hmac-sha2-256"),
     ("aes256-cbc", "hmac-sha1"),
@@ -273,12 +273,11 @@ def items_for(tier):
         for d in ("c2s", "s2c"):
             items.append(("seq", tier, s, d))
             items.append(("frag", tier, s, d))
-    reps = CLASS_REPS if tier == "quick" else CLASS_REPS_T
+    reps = CLASS_REPS_T     # same classes in both tiers, so finding keys do not depend on the tier
     classes = [(c, m, z) for (c, m) in reps for z in P.COMPRESSIONS]
     for i, a in enumerate(classes):
         for j, b in enumerate(classes):
-            cut_all = tier != "quick" or j == (i + 1) % len(classes)
-            items.append(("switch", tier, a, b, cut_all))
+            items.append(("switch", tier, a, b, True))
     return items
 
 
@@ -304,7 +303,7 @@ def main(tier):
         "long_sequence": {"messages": 200, "lengths": list(L_ALL)},
         "fragmentation_sequences": [list(s) for s in FRAG_SEQS],
         "timeouts_per_stream": 1 if tier == "quick" else 2,
-        "switch_classes": len(CLASS_REPS if tier == "quick" else CLASS_REPS_T) * 2,
+        "switch_classes": len(CLASS_REPS_T) * 2,
         "work_items": len(items),
     }
     return ck.finish()
